@@ -89,8 +89,28 @@ def c04() -> int:
     return c.finish()
 
 
+def c08() -> int:
+    from .enum_index import c08_enum
+
+    c = Check("C08", "explicit-state BFS to closure over SimulationState values with the index operations as transitions (ENUM) + index monitor on every FSX state")
+    closed = c08_enum(c)
+    c.exhaustive = bool(closed)
+    quick = tier() == "quick"
+    fsx(c, RES + ({"variant": "core"},), ("hivemc.bundles", "c08", {}), K=2 if quick else 3, H=7 if quick else 9,
+        needs=["default:DispatchTrip>ServicingTrip", "default:ServicingTrip>Idle", "env:R"])
+    fsx(c, REQ + ({},), ("hivemc.bundles", "c08", {}), K=3 if quick else 4, H=8 if quick else 10)
+    c.assumptions += ["re-adding an id that is already present is outside the alphabet (the API gives it no meaning)"]
+    return c.finish()
+
+
 def c11() -> int:
     from .enum_timed import c11 as run
+
+    return run()
+
+
+def c12() -> int:
+    from .enum_dispatch import c12 as run
 
     return run()
 
@@ -107,4 +127,10 @@ def c14() -> int:
     return run()
 
 
-CHECKS = {"C11": c11, "C04": c04, "C13": c13, "C14": c14, "C17": c17, "C02": c02, "C03": c03, "C07": c07}
+def c20() -> int:
+    from .enum_shift import c20 as run
+
+    return run()
+
+
+CHECKS = {"C20": c20, "C08": c08, "C12": c12, "C11": c11, "C04": c04, "C13": c13, "C14": c14, "C17": c17, "C02": c02, "C03": c03, "C07": c07}
